@@ -462,6 +462,15 @@ def constructor_route(rec, props: tuple, case: dict, out, max_notes: int = 400) 
         _ROUTE += 1
         form = ("keyword", "positional", "omitted")[_ROUTE % 3]
         sps = tr.star_power_events
+        if _ROUTE % 2:
+            # the call before FAILED: the public factories are handed data they must refuse part-way (a star-power datum among the note
+            # data) - what they had gathered by then is not the next note's business
+            for bad in ([I.NoteEvent.ParsedData(tick=0, note_track_index=I.NoteTrackIndex(1), sustain=0), I.StarPowerEvent.ParsedData(tick=0, sustain=5)],):
+                for fn_ in (lambda b: I.Note.from_parsed_datas(b), lambda b: I.NoteEvent.from_parsed_data(b, None, sps, be)):
+                    try:
+                        fn_(bad)
+                    except Exception:  # noqa
+                        rec.mon("factory_calls_that_failed_right_before_a_note_was_built")
         prev, bi, si = None, 0, 0
         rcase = {"text": case["text"], "truth": case["truth"], "constructor_route": key, "form": form}
         for k, g in enumerate(ttr["groups"][:max_notes]):
